@@ -150,6 +150,13 @@ def one_missing_case(ctx, case):
             direct = [[m["resA"], int(m["idxA"]), m["resB"], int(m["idxB"])] for m in find_missing_edges(meta, meta.molecule)]
             resgraph = G.dump_resgraph(meta)
             medges = [[int(u), int(v)] for u, v in meta.molecule.edges]
+            # hypotheses of C10_exact / C10_missing_eq_spec on the real objects: fragment graphs are subgraphs of the
+            # molecule on the residue's own atoms, residues own different atoms
+            mset = {frozenset(e) for e in medges}
+            owners = [set(n["frag"]) for n in resgraph["res"]]
+            hyp = all(frozenset(e) in mset and set(e) <= set(n["frag"]) for n in resgraph["res"] for e in n["fedges"]) \
+                and sum(len(o) for o in owners) == len(set().union(*owners) if owners else set())
+            ctx.tally(theorem_hypotheses_hold=hyp)
             alive = set(int(k) for k in meta.molecule.nodes)
             # (b) the command, with its log records
             out = pathlib.Path(os.path.join(tmp, "out.itp"))
